@@ -503,6 +503,30 @@ drv_sgl(int argc, char **argv)
                         session(&s);
                 }
         }
+        /* (c) counter-carry split windows (GCM, 96-bit IV: block counter starts at 2): the first segment ends where the
+         * counter low byte is about to wrap in the next 16 / 32 blocks, the second segment is long enough to enter the
+         * multi-block paths; every split position in the windows */
+        if (strstr(algs, "gcm")) {
+                static const int win[][2] = { { 3536, 3600 }, { 3790, 3850 }, { 7630, 7700 }, { 7886, 7946 } };
+                for (int w = 0; w < 4; w++)
+                        for (int a = win[w][0]; a <= win[w][1]; a++) {
+                                sess_t s;
+                                memset(&s, 0, sizeof(s));
+                                s.alg = A_GCM;
+                                s.kl = (int[]){ 16, 24, 32 }[a % 3];
+                                s.dir = 1 + (a & 1);
+                                s.iface = (a / 2) % 3;
+                                s.seg[0] = (uint32_t) a;
+                                s.seg[1] = 600;
+                                s.nseg = 2;
+                                s.total = (uint32_t) a + 600;
+                                s.aadlen = 13;
+                                s.ivlen = 12;
+                                s.taglen = 16;
+                                s.seed = hx_rand(&g);
+                                session(&s);
+                        }
+        }
         tr_begin("SglDone");
         tr_int("sessions", nsess);
         tr_end();
